@@ -74,7 +74,7 @@ CHECKS = {
    note="As C01. User packages named like FFI packages are not covered (the emitted text is identical; only Coq's name resolution differs).",
    tech="translation validation: symbolic execution of Go SSA vs GooseLang evaluator + SMT (z3)"),
  "C03": dict(cat="translation_validation", ref="§4 C03",
-   text="16 race-free concurrent templates (spawn+join, captured variables read and written, mutex counter, last writer wins, condvar hand-off, broadcast to two waiters, two Adds, goroutine bodies ending in if / with trailing statements / a single call, go as last statement of a block, lock protecting two cells, WaitTimeout with a signaller, Sleep) with a symbolic uint64 argument are translated by the real goose. The Go function (from go/ssa) and the emitted GooseLang definition (evaluator with Fork, lock.*, lock.cond*, waitgroup.*) are each explored under a cooperative scheduler over ALL interleavings at synchronisation points; every complete path yields (path condition, result) and z3 decides over the symbolic argument: every Go outcome is a GooseLang outcome; if the Go result is schedule-independent, every complete GooseLang interleaving yields it and none deadlocks or gets stuck. A template goose rejects is a violation.",
+   text="18 race-free concurrent templates and 10 concurrent look-alikes (rejected, or the same relation) (spawn+join, captured variables read and written, mutex counter, last writer wins, condvar hand-off, broadcast to two waiters, two Adds, goroutine bodies ending in if / with trailing statements / a single call, go as last statement of a block, lock protecting two cells, WaitTimeout with a signaller, Sleep) with a symbolic uint64 argument are translated by the real goose. The Go function (from go/ssa) and the emitted GooseLang definition (evaluator with Fork, lock.*, lock.cond*, waitgroup.*) are each explored under a cooperative scheduler over ALL interleavings at synchronisation points; every complete path yields (path condition, result) and z3 decides over the symbolic argument: every Go outcome is a GooseLang outcome; if the Go result is schedule-independent, every complete GooseLang interleaving yields it and none deadlocks or gets stuck. A template goose rejects is a violation.",
    note="Interleavings are ENUMERATED by the executor (sound at synchronisation points for data-race-free programs), ≤ 3 threads, ≤ 20 000 / 200 000 interleavings per side, timed waits may return at any moment (≤ 3 timeouts per run); the primitives' meaning on both sides is the Go meaning (trusted). GooseLang's 'racy access is stuck' rule is not modelled.",
    tech="scheduler exploration of Go SSA and GooseLang evaluator, outcome-set inclusion decided by SMT (z3)"),
 }
